@@ -26,7 +26,10 @@ RULE = (
     "Cross-process: a corpus of generated pickles is digested by two fresh interpreters with "
     "PYTHONHASHSEED=0 and =4242, one analysing the corpus front-to-back and the other back-to-"
     "front (answers must not depend on what was analysed before); sequences may also analyse an "
-    "unrelated decoy pickle (numerically equal constants of other types) between queries. "
+    "unrelated decoy pickle (numerically equal constants of other types) between queries, and "
+    "apply a stack-neutral edit (insert() of push...POP runs incl. STACK_GLOBAL, GLOBAL, a call, "
+    "PROTO) to both copies, after which every answer must equal that of a never-queried parse of "
+    "the edited bytes. "
     "Non-trivial = the sequence asks some "
     "kind again after a different kind, and the pickle contains a dict/set/frozenset or yields "
     ">= 2 findings; distinct = distinct (bytes, query sequence)."
@@ -107,6 +110,32 @@ def ask(p, q, data, path):
     raise ValueError(q)
 
 
+def _edit_ops(k):
+    """stack-neutral opcode runs (push ... POP) that can be inserted anywhere before STOP"""
+    from fickling import fickle as F
+
+    k %= 6
+    if k == 0:
+        return [F.ConstantOpcode.new("a"), F.Pop()]
+    if k == 1:
+        return [F.Global.create("os", "system"), F.Pop()]
+    if k == 2:
+        return [F.ConstantOpcode.new("os"), F.ConstantOpcode.new("getpid"), F.StackGlobal(), F.Pop()]
+    if k == 3:
+        return [F.Global.create("builtins", "eval"), F.ConstantOpcode.new("1"), F.TupleOne(), F.Reduce(), F.Pop()]
+    if k == 4:
+        return [F.Proto.create(2), F.NoneOpcode(), F.Pop()]
+    return [F.Mark(), F.ConstantOpcode.new(7), F.PopMark()]
+
+
+def apply_edit(p, k, at):
+    """the same edit through the sequence interface (insert(), one opcode at a time)"""
+    n = len(p)
+    i = at % n if n else 0
+    for j, op in enumerate(_edit_ops(k)):
+        p.insert(i + j, op)
+
+
 def check_sequence(data, seq, path):
     """seq: list of (query, copy index 0/1). Returns (Failure|None, nfindings)"""
     from fickling.fickle import Pickled
@@ -129,6 +158,34 @@ def check_sequence(data, seq, path):
     nfind = 0
     case = {"hex": data.hex(), "seq": [list(x) for x in seq]}
     for i, (q, which) in enumerate(seq):
+        if q == "edit":
+            # the same edit on both copies (one or both of which have answered queries, i.e. hold
+            # caches); from here on the answers must be those of a never-queried parse of the
+            # edited bytes - the history of an object is not part of the bytes
+            try:
+                for c in copies:
+                    apply_edit(c, which[0], which[1])
+                edited = copies[0].dumps()
+                same = copies[1].dumps() == edited
+            except Exception:  # noqa: BLE001 - the edit itself was refused
+                return None, nfind
+            if not same:
+                return Failure(case, f"the same edit on two copies of {data!r} gives different bytes"), nfind
+            data = edited
+            try:
+                with open(path, "wb") as fh:
+                    fh.write(data)
+                fresh = Pickled.load(data)
+                ast.unparse(Pickled.load(data).ast)
+            except RecursionError:
+                return None, nfind
+            except Exception:  # noqa: BLE001 - no longer an accepted pickle
+                return None, nfind
+            first = {}
+            for fq in QUERIES:
+                a = ask(fresh, fq, data, path)
+                first.setdefault(a[0], (f"fresh parse after edit at step {i}", a))
+            continue
         if q == "decoy":
             # analyse an unrelated pickle in between (numerically-equal constants of other types)
             try:
@@ -269,6 +326,8 @@ def _interesting(data):
 
 
 def _seq_nt(seq):
+    if any(q == "edit" for q, _ in seq[1:-1]):
+        return True
     kinds = [("source" if q == "trace" else q) for q, _ in seq]
     for i, k in enumerate(kinds):
         if k in kinds[:i] and any(x != k for x in kinds[kinds.index(k) + 1 : i]):
@@ -281,7 +340,9 @@ def _case_strategy():
 
     from vlib import values
 
-    prof = asm.full_profile(vocab.ASM_GLOBS)
+    # incl. the protocol-5 out-of-band buffer opcodes: whatever a tree does with them, it has to
+    # do the same thing every time
+    prof = asm.full_profile(vocab.ASM_GLOBS, buffers=True)
     progs = asm.programs(prof, max_len=24).map(lambda p: p.data)
     nat = st.tuples(
         st.one_of(values.plain_values(), values.instance_values()), st.sampled_from(range(6))
@@ -291,6 +352,7 @@ def _case_strategy():
         st.one_of(
             st.tuples(st.sampled_from(QUERIES), st.sampled_from([0, 1])),
             st.tuples(st.just("decoy"), st.integers(0, len(DECOYS) - 1)),
+            st.tuples(st.just("edit"), st.tuples(st.integers(0, 5), st.integers(0, 30))),
         ),
         min_size=2, max_size=12,
     )
